@@ -81,6 +81,7 @@ static std::string gen_synthetic(Draw &d, const SynOpts &o = SynOpts(), int *out
 struct TopoSpec {
   bool is_xml = false;
   std::string synth, xmlpath;
+  std::string xmlbuf, xmlbuf_summary;   // generated document (genxml.hpp), loaded through set_xmlbuffer
   // snapshot sources (C18): HWLOC_FSROOT / HWLOC_CPUID_PATH / HWLOC_COMPONENTS, plus extra environment toggles
   std::string fsroot, cpuid, components, snapname;
   std::vector<std::pair<std::string, std::string>> envs;
@@ -92,7 +93,7 @@ struct TopoSpec {
   int bulk_kind = 0, bulk_filter = 0;   // 1 = set_cache_types_filter, 2 = set_icache_types_filter, 3 = set_io_types_filter (applied before the per-type filters)
   TopoSpec() { for (auto &f : filters) f = -1; }
   std::string text() const {
-    std::string s = is_native ? std::string("this-machine") : is_snapshot() ? "snapshot=" + snapname + " HWLOC_COMPONENTS=" + components : is_xml ? "xml=" + xmlpath.substr(xmlpath.rfind('/') + 1) : "synthetic=\"" + synth + "\"";
+    std::string s = is_native ? std::string("this-machine") : is_snapshot() ? "snapshot=" + snapname + " HWLOC_COMPONENTS=" + components : !xmlbuf.empty() ? xmlbuf_summary : is_xml ? "xml=" + xmlpath.substr(xmlpath.rfind('/') + 1) : "synthetic=\"" + synth + "\"";
     for (auto &e : envs) s += " " + e.first + "=" + e.second;
     s += strf(" flags=0x%lx", flags);
     if (all_filter_set) s += strf(" allfilter=%d", all_filter);
@@ -197,6 +198,7 @@ static int apply_spec_and_load(Case &c, hwloc_topology_t t, const TopoSpec &sp) 
     if (!sp.cpuid.empty()) setenv("HWLOC_CPUID_PATH", sp.cpuid.c_str(), 1); else unsetenv("HWLOC_CPUID_PATH");
     setenv("HWLOC_COMPONENTS", sp.components.c_str(), 1);
     for (auto &e : sp.envs) setenv(e.first.c_str(), e.second.c_str(), 1);
+  } else if (!sp.xmlbuf.empty()) { r = hwloc_topology_set_xmlbuffer(t, sp.xmlbuf.c_str(), (int)sp.xmlbuf.size() + 1); CHECK(c, r == 0, "set_xmlbuffer", "set_xmlbuffer of a generated document failed errno %d", errno); if (getenv("VERIF_GENXML_DUMP")) { FILE *f = fopen(getenv("VERIF_GENXML_DUMP"), "w"); if (f) { fputs(sp.xmlbuf.c_str(), f); fclose(f); } }
   } else if (sp.is_xml) { r = hwloc_topology_set_xml(t, sp.xmlpath.c_str()); CHECK(c, r == 0, "set_xml", "set_xml(%s) failed errno %d", sp.xmlpath.c_str(), errno); }
   else { r = hwloc_topology_set_synthetic(t, sp.synth.c_str()); CHECK(c, r == 0, "set_synthetic", "generated description rejected: %s", sp.synth.c_str()); }
   return hwloc_topology_load(t);
